@@ -22,12 +22,13 @@ pub mod c16_graphs;
 pub mod c17;
 pub mod c18;
 pub mod c19;
+pub mod c20;
 pub mod lattice_cfg;
 pub mod slice_oracles;
 pub mod standalone;
 pub mod stream_props;
 
-pub const ALL: &[&str] = &["C01", "C02", "C03", "C04", "C05", "C06", "C07", "C08", "C09", "C10", "C11", "C12", "C13", "C14", "C15", "C16", "C17", "C18", "C19"];
+pub const ALL: &[&str] = &["C01", "C02", "C03", "C04", "C05", "C06", "C07", "C08", "C09", "C10", "C11", "C12", "C13", "C14", "C15", "C16", "C17", "C18", "C19", "C20"];
 
 pub fn build(prop: &str, tier: Tier) -> Option<CheckDef> {
     match prop {
@@ -50,6 +51,7 @@ pub fn build(prop: &str, tier: Tier) -> Option<CheckDef> {
         "C17" => Some(c17::build(tier)),
         "C18" => Some(c18::build(tier)),
         "C19" => Some(c19::build(tier)),
+        "C20" => Some(c20::build_def(tier)),
         _ => None,
     }
 }
